@@ -13,6 +13,8 @@
 -/
 import EinoV.Model.C12
 import EinoV.Proofs.C12
+import EinoV.Model.C12Reg
+import EinoV.Proofs.C12Reg
 import EinoV.Gen.FactsC12
 import EinoV.Expected.C12
 
@@ -342,5 +344,203 @@ theorem outer_nil_changes_type_without_fix :
 theorem empty_key_breaks_dispatch :
     let ctx : Ctx := ⟨[("", tInt)], []⟩
     ctx.ok = false ∧ (enc ctx Jid Fall (iv "1") >>= unmarshalTop ctx Jid Fall) = .ok (.slice tInt true .nil) := by decide
+
+/-! ## the registry as a sequence of `GenericRegister` calls (Model/C12Reg.lean)
+
+The theorems above take a registry that satisfies `Ctx.ok` as given.  The registry of a process
+is built by a sequence of calls — the `init` functions of `internal/serialization` and
+`compose`, then whatever user packages and tests call, in any order, with clashing keys,
+repeated pairs, pointer types, the empty key.  This section proves the clause over ALL such
+sequences: a clash is an error of the call that causes it and changes nothing, so no key ever
+comes to name another type and no type another key — "never a silently different dynamic type
+at decode time". -/
+
+/-- the state machine's fact record as regenerated from the source on this run -/
+def srcRegFacts : RegFacts := regFactsOf FactsC12.registerGuards
+
+/-- `GenericRegister` has the shape `regStep` mirrors: pointers stripped first, then the three
+    guards in the order empty key / key taken / type taken, each refusing unconditionally, then
+    one store into each map and no other store. -/
+theorem register_facts_match :
+    FactsC12.registerGuards = registerGuards ∧ FactsC12.registerStoresBoth = registerStoresBoth
+    ∧ FactsC12.registerStripsPointers = registerStripsPointers := by
+  decide
+
+/-- all three guards are present -/
+theorem srcRegFacts_all : srcRegFacts = RFall := by decide
+
+/-- **a refused call changes nothing** (whatever guards exist): the registry after a call that
+    returned an error is the registry before it. -/
+theorem rejected_call_changes_nothing (r : Reg) (op : RegOp)
+    (h : (regStep srcRegFacts r op).1 ≠ .accepted) : (regStep srcRegFacts r op).2 = r :=
+  regStep_rejected srcRegFacts r op h
+
+/-- **a clash is an error at registration.**  A call whose key is in use (by whatever type, the
+    same one included), whose pointer-stripped type is registered (under whatever key), or whose
+    key is empty is refused and leaves the registry untouched. -/
+theorem clash_is_registration_error (r : Reg) (op : RegOp)
+    (h : r.hasKey op.key = true ∨ r.hasTy op.ty.strip = true ∨ op.key = "") :
+    (regStep srcRegFacts r op).1 ≠ .accepted ∧ (regStep srcRegFacts r op).2 = r := by
+  have hne : (regStep srcRegFacts r op).1 ≠ .accepted := by
+    rw [srcRegFacts_all]
+    intro ha
+    obtain ⟨h1, h2, h3⟩ := regStep_accepted_fresh r op ha
+    rcases h with h | h | h
+    · rw [h2] at h; cases h
+    · rw [h3] at h; cases h
+    · exact h1 h
+  exact ⟨hne, regStep_rejected srcRegFacts r op hne⟩
+
+/-- **every registry the code can build is well-formed.**  Starting from a well-formed registry
+    (the empty one in particular), after ANY sequence of calls — accepted or refused, clashing
+    keys, repeated pairs, pointer types, empty keys — `m` and `rm` are still inverse bijections
+    without an empty key: the hypothesis `Ctx.ok` of the round-trip theorems is an invariant
+    of the code, not an assumption about its callers. -/
+theorem registry_wellformed_after_any_calls (ctx : Ctx) (hc : ctx.ok = true) (ops : List RegOp) :
+    (ctx.after srcRegFacts ops).ok = true := by
+  rw [srcRegFacts_all]; exact ok_after ctx ops hc
+
+/-- the same from nothing: no registrations yet, any struct declarations with distinct field
+    names, any calls -/
+theorem registry_built_from_nothing_ok (structs : List (Name × List (Name × GoTy)))
+    (hs : structs.all (fun s => (s.2.map (·.1)).Nodup) = true) (ops : List RegOp) :
+    ((Ctx.mk [] structs).after srcRegFacts ops).ok = true :=
+  registry_wellformed_after_any_calls ⟨[], structs⟩ (by rw [ok_eq]; simpa [regOK] using hs) ops
+
+/-- the calls eino's two `init` functions make, as regenerated from the source -/
+def initOps : List RegOp :=
+  (builtinReg (FactsC12.registry ++ FactsC12.composeRegistry) einoKinds).map fun e => ⟨e.1, e.2⟩
+
+/-- eino's own `init` sequence run through the state machine: every one of the 32 calls is
+    accepted and the result is the table `builtin_registry_ok` speaks about (newest first). -/
+theorem init_calls_all_accepted :
+    regOutcomes srcRegFacts [] initOps = List.replicate 32 .accepted
+    ∧ regAfter srcRegFacts [] initOps
+        = (builtinReg (FactsC12.registry ++ FactsC12.composeRegistry) einoKinds).reverse := by
+  decide
+
+/-- **a registration in force stays in force.**  Once a key names a type (`m[k] = t`) and a type
+    has its key (`rm[t] = k`), no later sequence of calls changes either: what the encoder writes
+    for `t` and what the decoder reads for `k` are fixed for the rest of the process. -/
+theorem registration_in_force_forever (ctx : Ctx) (ops : List RegOp) (k : Name) (t : GoTy) :
+    (tyOfKey ctx k = some t → tyOfKey (ctx.after srcRegFacts ops) k = some t)
+    ∧ (keyOf ctx t = some k → keyOf (ctx.after srcRegFacts ops) t = some k) := by
+  rw [srcRegFacts_all]
+  exact ⟨tyOfKey_ctx_after RFall rfl ctx ops k t, keyOf_ctx_after RFall rfl ctx ops t k⟩
+
+/-- **round trip after any further registrations.**  A value that is `Supported` now is
+    `Supported` after any sequence of `GenericRegister` calls, and its round trip in the
+    resulting registry succeeds with a deeply equal value of the identical dynamic type. -/
+theorem roundtrip_survives_registrations (ctx : Ctx) (J : JLayer) (hc : ctx.ok = true) (hJ : J.OK)
+    (v : GoVal) (hs : Supported ctx J v = true) (ops : List RegOp) :
+    ∃ is v', enc (ctx.after srcRegFacts ops) J srcFacts v = .ok is
+      ∧ unmarshalTop (ctx.after srcRegFacts ops) J srcFacts is = .ok v'
+      ∧ v' ≈ v ∧ v'.typeOf = v.typeOf := by
+  rw [srcRegFacts_all]
+  exact roundtrip_partial (ctx.after RFall ops) J (ok_after ctx ops hc) hJ v (supported_after ctx J ops v hs)
+
+/-- **what was written earlier reads back the same later.**  Bytes `Marshal` produced for a
+    `Supported` value at some point of the process are read back — after ANY further sequence
+    of `GenericRegister` calls — as a deeply equal value of the identical dynamic type: a
+    checkpoint put into a store is not re-interpreted by registrations that happen before it is
+    read. -/
+theorem written_earlier_reads_back (ctx : Ctx) (J : JLayer) (hc : ctx.ok = true) (hJ : J.OK)
+    (v : GoVal) (hs : Supported ctx J v = true) (ops : List RegOp) :
+    ∃ is v', enc ctx J srcFacts v = .ok is
+      ∧ unmarshalTop (ctx.after srcRegFacts ops) J srcFacts is = .ok v'
+      ∧ v' ≈ v ∧ v'.typeOf = v.typeOf := by
+  obtain ⟨is, v', he, hd, hn, ht⟩ := roundtrip_partial ctx J hc hJ v hs
+  refine ⟨is, v', he, ?_, hn, ht⟩
+  rw [srcRegFacts_all]
+  exact unmarshalTop_ext (ctxExt_after RFall rfl ctx ops) J srcFacts is v' hd
+
+/-- **loud across registrations.**  For every well-typed value whatsoever: if it was written
+    without error and is read without error after any further calls, the value read is the
+    value written (≈, identical dynamic type). -/
+theorem loud_across_registrations (ctx : Ctx) (J : JLayer) (hc : ctx.ok = true) (hJ : J.OK)
+    (v : GoVal) (is : IS) (v' : GoVal) (ops : List RegOp) (hw : v.wt ctx = true)
+    (he : enc ctx J srcFacts v = .ok is)
+    (hd : unmarshalTop (ctx.after srcRegFacts ops) J srcFacts is = .ok v') :
+    v' ≈ v ∧ v'.typeOf = v.typeOf := by
+  obtain ⟨v'', hd''⟩ := written_is_readable ctx J hc hJ v is hw he
+  have hx := unmarshalTop_ext (ctxExt_after RFall rfl ctx ops) J srcFacts is v'' hd''
+  rw [srcRegFacts_all] at hd
+  rw [hx] at hd
+  have : v'' = v' := ok_inj hd
+  subst this
+  exact loud ctx J hc hJ v is v'' hw he hd''
+
+/-! ### registry sequences: witnesses -/
+
+def tCelsius : GoTy := .named "Celsius" "float64"
+def tFahrenheit : GoTy := .named "Fahrenheit" "float64"
+
+/-- `ctxW` plus two struct types where the second has the first one's field and one more -/
+def ctxR : Ctx where
+  reg := ctxW.reg
+  structs := ctxW.structs ++ [("AgentState", [("Note", tStr)]), ("WorkflowState", [("Note", tStr), ("Retries", tInt)])]
+
+/-- two packages call their state "state"; a repeated pair; a pointer type; an empty key -/
+def clashOps : List RegOp :=
+  [⟨"temperature", tCelsius⟩, ⟨"temperature", tFahrenheit⟩, ⟨"temperature", tCelsius⟩,
+   ⟨"state", .ptr (.struct "AgentState")⟩, ⟨"state", .struct "WorkflowState"⟩, ⟨"agent", .struct "AgentState"⟩,
+   ⟨"", .struct "WorkflowState"⟩, ⟨"_eino_string", tFahrenheit⟩]
+
+/-- with the guards of the source: the first type keeps each key, every clashing call is an
+    error, a value of the accepted type round-trips to itself and a value of the refused type
+    is refused by the encoder (loud) -/
+theorem key_clash_refused_and_loud :
+    regOutcomes srcRegFacts ctxR.reg clashOps
+      = [.accepted, .keyTaken, .keyTaken, .accepted, .keyTaken, .typeTaken, .emptyKey, .keyTaken]
+    ∧ (ctxR.after srcRegFacts clashOps).ok = true
+    ∧ (let c := ctxR.after srcRegFacts clashOps
+       (enc c Jid srcFacts (.basic tCelsius "36.6") >>= unmarshalTop c Jid srcFacts) = .ok (.basic tCelsius "36.6")
+       ∧ enc c Jid srcFacts (.basic tFahrenheit "36.6") = .error .unknownType
+       ∧ (enc c Jid srcFacts (.ptr (.struct "AgentState" (.cons "Note" (.basic tStr "\"n\"") .nil))) >>= unmarshalTop c Jid srcFacts)
+           = .ok (.ptr (.struct "AgentState" (.cons "Note" (.basic tStr "\"n\"") .nil)))
+       ∧ enc c Jid srcFacts (.struct "WorkflowState" (.cons "Note" (.basic tStr "\"n\"") (.cons "Retries" (iv "1") .nil)))
+           = .error .unknownType) := by
+  decide
+
+/-- facts of a `GenericRegister` without the `m[key]` guard (the key → type check dropped) -/
+def RFnoKeyGuard : RegFacts := ⟨true, false, true⟩
+
+/-- (negation witness) without the `keyTaken` guard the second type silently takes the key
+    over: every call returns `nil`, the registry is no bijection any more, and a value of the
+    type registered first is written without error and read back without error as a value of
+    the other type — a named basic always, a struct whenever the second struct has the first
+    one's fields.  The guard is needed for `registry_wellformed_after_any_calls`. -/
+theorem key_takeover_without_key_guard :
+    let ops : List RegOp := [⟨"temperature", tCelsius⟩, ⟨"temperature", tFahrenheit⟩,
+                             ⟨"state", .struct "AgentState"⟩, ⟨"state", .struct "WorkflowState"⟩]
+    let c := ctxR.after RFnoKeyGuard ops
+    regOutcomes RFnoKeyGuard ctxR.reg ops = [.accepted, .accepted, .accepted, .accepted]
+    ∧ c.ok = false
+    ∧ (enc c Jid Fall (.basic tCelsius "36.6") >>= unmarshalTop c Jid Fall) = .ok (.basic tFahrenheit "36.6")
+    ∧ (enc c Jid Fall (.ptr (.struct "AgentState" (.cons "Note" (.basic tStr "\"n\"") .nil))) >>= unmarshalTop c Jid Fall)
+        = .ok (.ptr (.struct "WorkflowState" (.cons "Note" (.basic tStr "\"n\"") (.cons "Retries" (iv "0") .nil)))) := by
+  decide
+
+/-- (negation witness) the same for bytes in a store: written while the key named the first
+    type, read after the second type took the key over — no error, another dynamic type.  The
+    guard is needed for `written_earlier_reads_back`. -/
+theorem stored_bytes_change_type_without_key_guard :
+    let c1 := ctxR.after RFnoKeyGuard [⟨"state", .struct "AgentState"⟩]
+    let c2 := c1.after RFnoKeyGuard [⟨"state", .struct "WorkflowState"⟩]
+    let v := GoVal.ptr (.struct "AgentState" (.cons "Note" (.basic tStr "\"n\"") .nil))
+    (enc c1 Jid Fall v >>= unmarshalTop c1 Jid Fall) = .ok v
+    ∧ (enc c1 Jid Fall v >>= unmarshalTop c2 Jid Fall)
+        = .ok (.ptr (.struct "WorkflowState" (.cons "Note" (.basic tStr "\"n\"") (.cons "Retries" (iv "0") .nil)))) := by
+  decide
+
+/-- facts of a `GenericRegister` without the `rm[t]` guard -/
+def RFnoTypeGuard : RegFacts := ⟨true, true, false⟩
+
+/-- (negation witness) without the `typeTaken` guard a second key for a type leaves the first
+    key behind: `m` still resolves it but `rm` does not lead back to it (no bijection). -/
+theorem stale_key_without_type_guard :
+    let c := ctxR.after RFnoTypeGuard [⟨"a", tCelsius⟩, ⟨"b", tCelsius⟩]
+    c.ok = false ∧ tyOfKey c "a" = some tCelsius ∧ keyOf c tCelsius = some "b" := by
+  decide
 
 end EinoV.C12
